@@ -4,7 +4,8 @@ import specs.C07 as S, specs.C09 as L, specs.C10 as D, specs.C13 as B, specs.C14
 ABNORMAL = ('REPO-ASSERT', 'STD-TERMINATE', 'PURE-VIRTUAL-CALL', 'LLVM-TRAP', 'UNMODELLED-CALL', 'arithmetic overflow', 'division by zero', 'overflow')
 INFO = {
     'what': ('abnormal termination of the constraint-network library under precondition-respecting API use: every query of the C07, C09, C10, C13, C14 and C15 (lin) checks is re-read for exactly the outcomes assert() failure (assertions are live in the '
-             'encoding), an exception escaping a noexcept function (std::terminate), pure-virtual call, trap, signed overflow and division by zero; functional mismatches are not counted here. '
+             'encoding), an exception escaping a noexcept function (std::terminate), pure-virtual call, trap, signed overflow and division by zero; functional mismatches are not counted here. A query whose unwinding assertion fails (a loop of the code under test exceeds the generous bound although the '
+             'scenario is concrete) is replayed natively: a native hang or abort is reported as a violation (non-termination), a normal native run leaves it without verdict. '
              'The text-input half of the property (lexer / parser on arbitrary bytes) is NOT covered: see DESIGN.md section 3 for the measured reason'),
     'units': sorted(set(SAT_UNITS + LRA_UNITS + IDL_UNITS + RDL_UNITS + OV_UNITS)),
     'functions': ['every function reached by the C07 / C09 / C10 / C13 / C14 / C15 queries'],
@@ -31,7 +32,8 @@ def jobs(tier):
             ms = ms[::8] if tier == 'quick' else ms[::4]
         keep = {'sat': len(S.CURATED), 'dl': 2 * len(D.CURATED), 'lra': len(L.CURATED)}.get(pre, 0)   # curated scenarios are always included
         if pre == 'dl':
-            cur = [m for m in ms if int(m.name.split('scenario')[-1]) < len(D.CURATED)]
+            undo = set(th + ': ' + D.fmt(*x) for x in D.family_undo() for th in ('idl', 'rdl'))   # restored / stale predecessors: where an explanation walk can cycle
+            cur = [m for m in ms if int(m.name.split('scenario')[-1]) < len(D.CURATED) or m.desc in undo]
             ms = cur + [m for m in ms if m not in cur][::step]
         else:
             ms = ms[:keep] + ms[keep:][::step]
